@@ -410,3 +410,17 @@ Proof. reflexivity. Qed.
 Theorem verify_cascading_same_env (seal_ok : bool) :
   verify_cascading true seal_ok = verify_cascading_in_memory true seal_ok.
 Proof. reflexivity. Qed.
+
+(** ** ETH seal verification: with the cache generated in memory and light verification (what VerifyCascadingFields
+    passes — checked on the regenerated call, [Props/C14_inventory.v]) neither the file system nor the scheduler is
+    consulted *)
+Theorem verify_cascading_env_independent {Header Sched} (light : list N -> Header -> bool) (full : Sched -> Header -> option bool)
+    (gen : list N) (fs fs' : fs_env) (sc sc' : Sched) (h : Header) :
+  verify_cascading_env light full false true gen fs sc h = verify_cascading_env light full false true gen fs' sc' h.
+Proof. reflexivity. Qed.
+
+(** and it is the verdict of hashimotoLight on the generated words *)
+Theorem verify_cascading_env_meaning {Header Sched} (light : list N -> Header -> bool) (full : Sched -> Header -> option bool)
+    (gen : list N) (fs : fs_env) (sc : Sched) (h : Header) :
+  verify_cascading_env light full false true gen fs sc h = Ok tt <-> light gen h = true.
+Proof. unfold verify_cascading_env, verify_seal, cache_generate. destruct (light gen h); split; auto; discriminate. Qed.
